@@ -19,6 +19,10 @@ type PacketOpts struct {
 	Compact bool
 	// ExtraDports are added to the destination-port dimension (C02 adds 53).
 	ExtraDports []uint16
+	// Interior: per written prefix shorter than /128 additionally probe addresses strictly inside it that are
+	// not its network address: first+1, the first address of its upper half (top host bit set) and - also in
+	// Compact mode - the last address. An encoder that makes the key too long (up to a host key) loses them.
+	Interior bool
 }
 
 // Defaults used for a dimension on which the program has no constant.
@@ -97,7 +101,7 @@ func add128(a [16]byte, d int) ([16]byte, bool) {
 
 // addrProbes: boundary addresses of the written prefixes, split by family (IPv4 = inside ::ffff:0:0/96,
 // returned as 4-byte addresses). An empty family gets its default.
-func addrProbes(prefixes []string, compact bool, def4, def6 netip.Addr) (v4, v6 []netip.Addr) {
+func addrProbes(prefixes []string, compact, interior bool, def4, def6 netip.Addr) (v4, v6 []netip.Addr) {
 	seen := map[[16]byte]bool{}
 	add := func(a [16]byte) {
 		if seen[a] {
@@ -111,6 +115,7 @@ func addrProbes(prefixes []string, compact bool, def4, def6 netip.Addr) (v4, v6 
 			v6 = append(v6, ad)
 		}
 	}
+	var inner [][16]byte // Interior probes: appended after the boundary points of all prefixes (existing order kept)
 	for _, s := range prefixes {
 		p, err := parsePfx(s)
 		if err != nil {
@@ -123,6 +128,12 @@ func addrProbes(prefixes []string, compact bool, def4, def6 netip.Addr) (v4, v6 
 		}
 		before, okB := add128(first, -1)
 		after, okA := add128(last, +1)
+		if interior && p.bits < 128 {
+			next, _ := add128(first, +1)
+			mid := first
+			mid[p.bits/8] |= 1 << (7 - uint(p.bits%8))
+			inner = append(inner, next, mid, last)
+		}
 		if compact {
 			add(first)
 			if okA {
@@ -141,6 +152,9 @@ func addrProbes(prefixes []string, compact bool, def4, def6 netip.Addr) (v4, v6 
 			add(after)
 		}
 		add(p.addr) // the address as written (differs from first for an unmasked prefix)
+	}
+	for _, a := range inner {
+		add(a)
 	}
 	if len(v4) == 0 {
 		v4 = []netip.Addr{def4}
@@ -351,8 +365,8 @@ func dscpProbes(vals []string, compact bool) []uint8 {
 // A dimension without constants contributes its single default.
 func PacketsFor(p *Program, o PacketOpts) []Packet {
 	c := collect(p)
-	dst4, dst6 := addrProbes(c.dip, o.Compact, DefDst4, DefDst6)
-	src4, src6 := addrProbes(c.sip, o.Compact, DefSrc4, DefSrc6)
+	dst4, dst6 := addrProbes(c.dip, o.Compact, o.Interior, DefDst4, DefDst6)
+	src4, src6 := addrProbes(c.sip, o.Compact, o.Interior, DefSrc4, DefSrc6)
 	both := len(c.dip) > 0 || len(c.sip) > 0 || c.ipver
 	dports := portProbes(c.dport, o.Compact, DefDport, o.ExtraDports)
 	sports := portProbes(c.sport, o.Compact, DefSport, nil)
